@@ -35,10 +35,30 @@ _AEH_STATE = [
     "forall(Node, Node, lambda a, b: implies((a, b) in self._graph.inh, ((a, b) in old(self)._graph.inh) or hlinked(old(self)._graph, old(self)._level_limit, %XS%, %K%, a, b)))",
     "forall(Node, Node, lambda a, b: implies(((a, b) in old(self)._graph.inh) or hlinked(old(self)._graph, old(self)._level_limit, %XS%, %K%, a, b), (a, b) in self._graph.inh))",
 ]
+# consequences in a form that does not mention positions in parent_modules + [child] (what callers that know the parents only as a set can use)
+REG.macro("is_parent_at", ["lim", "ps", "x"], "exists(Int, lambda j: 0 <= j and j < len(ps) and x == flat(lim, seq_at(ps, j)))")
+REG.macro("aeh_pair", ["lim", "ps", "c", "a", "b"], "a != b and is_parent_at(lim, ps, a) and (b == flat(lim, c) or is_parent_at(lim, ps, b))")
+_AEH_WEAK = [
+    "forall(Node, lambda x: implies(x in self._graph.nodes, (x in old(self)._graph.nodes) or is_parent_at(old(self)._level_limit, parent_modules, x)))",
+    "forall(Node, lambda x: implies((x in old(self)._graph.nodes) or is_parent_at(old(self)._level_limit, parent_modules, x), x in self._graph.nodes))",
+    "forall(Node, Node, lambda a, b: implies((a, b) in old(self)._graph.edges, (a, b) in self._graph.edges))",
+    "forall(Node, Node, lambda a, b: implies((a, b) in old(self)._graph.inh, (a, b) in self._graph.inh))",
+    # a new edge / a newly inheriting edge joins two names of the chain, both nodes afterwards; every new edge is a hierarchy edge
+    "forall(Node, Node, lambda a, b: implies(((a, b) in self._graph.edges) and not ((a, b) in old(self)._graph.edges), aeh_pair(old(self)._level_limit, parent_modules, old(child), a, b) and (b in self._graph.nodes)))",
+    "forall(Node, Node, lambda a, b: implies(((a, b) in self._graph.inh) and not ((a, b) in old(self)._graph.inh), aeh_pair(old(self)._level_limit, parent_modules, old(child), a, b) and ((a, b) in self._graph.edges)))",
+    "forall(Node, Node, lambda a, b: implies(((a, b) in self._graph.edges) and not ((a, b) in old(self)._graph.edges), (a, b) in self._graph.inh))",
+    # the child is linked to the LAST parent whenever the child is a node already
+    "implies(len(parent_modules) > 0 and (flat(old(self)._level_limit, old(child)) in old(self)._graph.nodes) and "
+    "flat(old(self)._level_limit, seq_at(parent_modules, len(parent_modules) - 1)) != flat(old(self)._level_limit, old(child)), "
+    "((flat(old(self)._level_limit, seq_at(parent_modules, len(parent_modules) - 1)), flat(old(self)._level_limit, old(child))) in self._graph.edges) and "
+    "((flat(old(self)._level_limit, seq_at(parent_modules, len(parent_modules) - 1)), flat(old(self)._level_limit, old(child))) in self._graph.inh))",
+]
 REG.add(Contract(f"{NG}._add_edges_within_module_hierarchy", module=M_NX, kind="method",
                  params=dict(self=NG, parent_modules="Seq[Node]", child="Node"), returns="None", modifies=["self"],
-                 ensures=[e.replace("%K%", "len(parent_modules)").replace("%XS%", _XS) for e in _AEH_STATE],
+                 ensures=[e.replace("%K%", "len(parent_modules)").replace("%XS%", _XS) for e in _AEH_STATE] + _AEH_WEAK,
                  locals=dict(all_modules="Seq[Node]"),
+                 ghost_asserts=["forall(Int, lambda j: implies(0 <= j and j < len(parent_modules), seq_at(all_modules, j) == seq_at(parent_modules, j)))"],
                  loops={0: dict(sig="for (parent, child) in zip(all_modules[:-1], all_modules[1:])",
                                 invariant=[e.replace("%K%", "idx").replace("%XS%", "all_modules") for e in _AEH_STATE])},
                  properties=["C02", "C04", "C09", "C13"]))
+
